@@ -208,8 +208,7 @@ def _debug(tag: str, bad: List[str]) -> None:
 
 
 @obligation(quick=240, thorough=880,
-            partitions_quick=[f"w == {w} and early == {e} and T == {t}" for w in (0, 1) for e in (True, False)
-                              for t in (1, 2)],
+            partitions_quick=[f"w == {w} and early == {e}" for w in (0, 1) for e in (True, False)],
             partitions_thorough=[f"w == {w} and early == {e} and T == {t}" for w in (0, 1, 2) for e in (True, False)
                                  for t in (1, 2, 3)],
             what="in-process stack: two external senders at independent symbolic instants around the idle timeout, step "
@@ -241,7 +240,7 @@ ZMAX = 2
 
 
 @obligation(quick=240, thorough=600,
-            partitions_quick=[f"kind == {k} and T == {t}" for k in (0, 1) for t in (1, 2)],
+            partitions_quick=["kind == 0", "kind == 1"],
             partitions_thorough=[f"kind == {k} and T == {t} and z == {z}" for k in (0, 1) for t in (1, 2, 3)
                                  for z in (0, 1, 2) if not (k == 1 and z)],
             what="in-process stack, work that exists only in the control loop's timer heap (kind 0: a wait_for_event "
@@ -464,7 +463,7 @@ RMAX = B(3, 4)
 
 
 @obligation(quick=240, thorough=880,
-            partitions_quick=[f"crash == {c} and r == {r}" for c in (True, False) for r in range(0, 3)],
+            partitions_quick=["crash", "not crash"],
             partitions_thorough=[f"crash == {c} and r == {r} and u1 == {u}" for c in (True, False) for r in range(0, 3)
                                  for u in range(0, 5)],
             what="lifecycle lock under concurrency (real tasks on MiniLoop): a releaser (begin_release at r, "
